@@ -404,6 +404,10 @@ func init() {
 					cfg.Plugins.Chain = append(cfg.Plugins.Chain, config.PluginConfig{Name: p.Name, Config: c17ValidConfig(p)})
 				}
 				exited, code, accepted, out := runBinaryUntil(e, cfg, "valid", 20*time.Second, true)
+				for attempt := 0; attempt < 3 && exited && strings.Contains(out, "address already in use"); attempt++ {
+					cfg.Server.Port = freePort() // the port picked by the harness was taken by another process meanwhile
+					exited, code, accepted, out = runBinaryUntil(e, cfg, "valid", 20*time.Second, true)
+				}
 				if exited || !accepted {
 					o.Viol("C17|binary|valid-chain-not-started", fmt.Sprintf("a valid chain did not start a listening proxy: exited=%v code=%d accepted=%v output=%s", exited, code, accepted, trunc(out, 300)), nil)
 					return
